@@ -31,6 +31,7 @@ type loopEnv struct {
 	rounds      int                 // sentinel rounds completed in total
 	aborted     string              // why the loop stopped early ("" = ran to the end)
 	problems    []string            // harness-side doubts (links that ended by themselves, watchdogs, error replies to link commands)
+	links       map[string]*link    // destination site → the link writing there
 	sigs        []string
 	violated    bool // the oracle raised at least one violation in this loop (incl. known findings)
 }
@@ -485,16 +486,47 @@ func (e *loopEnv) judge(run *harness.Run, X string) *siteView {
 						return l
 					}()}))
 		case x.n > 1:
-			sig := fmt.Sprintf("duplicated|%s", ctx)
 			var all []string
+			var idxs []int
 			for j := range v.biz {
-				if v.biz[j].id == x.id {
+				if v.biz[j].id == x.id && !(c.LateReverse && X == "A" && v.biz[j].rdb) {
 					all = append(all, appStr(v.biz[j].app))
+					idxs = append(idxs, v.biz[j].app.Idx)
 				}
 			}
-			e.violation(run, sig,
-				fmt.Sprintf("site %s: the client write %s of site %s was executed %d times by link %s→%s", X, x.id, v.Y, x.n, v.Y, X),
-				e.witness(map[string]any{"propagated": propStr(x.p), "executions": all}))
+			// a repeat is attributable to a restart iff a new incarnation of the link began between
+			// the two executions
+			restarts := e.links[X].restartLog()
+			sameRun := false
+			for j := 1; j < len(idxs); j++ {
+				between := false
+				for _, rs := range restarts {
+					if idxs[j-1] < rs.Mark && rs.Mark <= idxs[j] {
+						between = true
+					}
+				}
+				if !between {
+					sameRun = true
+				}
+			}
+			sig := fmt.Sprintf("duplicated|%s", ctx)
+			what := fmt.Sprintf("site %s: the client write %s of site %s was executed %d times by link %s→%s", X, x.id, v.Y, x.n, v.Y, X)
+			switch {
+			case len(restarts) == 0 && sx.faultCount.Load() == 0:
+				// a loop without restarts and faults: the plain clause
+			case sameRun:
+				sig = fmt.Sprintf("duplicated|same-run-resend|mode=%s|%s", c.Mode, ctx)
+				what += " within one run of the link (no restart in between)"
+			case c.Mode == config.ReplayModeSync:
+				sig = fmt.Sprintf("duplicated|after-restart|mode=sync|%s", ctx)
+				what += ": a restarted sync-mode link resumes exactly behind the last committed unit"
+			default:
+				// pipeline / parallel resume from the last contiguous committed prefix: units behind it
+				// may be sent again after a restart (the statement promises exactly-once absent restarts)
+				run.Count("repeats_after_restart_legal", 1)
+				continue
+			}
+			e.violation(run, sig, what, e.witness(map[string]any{"propagated": propStr(x.p), "executions": all, "restarts_of_the_link": restarts}))
 		default:
 			delivered++
 			a := v.biz[x.first].app
